@@ -62,20 +62,24 @@ def showPc : PConn → String × Nat
   | .idle => ("I", 0)
   | .live c => (if c.dead then "D" else "L", c.queue.length)
 
-/-- number of events taken from the front of `s` (s' is a suffix of s) -/
-def consumed (s s' : List Ev) : Nat := s.length - s'.length
+/-- One call consumes at most 2 events per attempt (CONNECT + INVOKE).  The driver hands the model a window of
+    the script that is longer than that, so that the length arithmetic stays O(1) on scripts of 10^5 events
+    (the model only ever inspects the head of the script). -/
+def window (retries : Nat) : Nat := 2 * (retries + 1) + 2
 
 def runCalls (retries : Nat) : List (Kind × Nat) → World → List Ev → List String → List String
   | [], _, _, acc => acc.reverse
   | (k, tok) :: rest, W, s, acc =>
     -- the server log is write-only for the model (C03_exec_bound: log' = replicate n tok ++ log); it is emptied
     -- before each call so that counting stays O(1) on histories of 10^5 calls
-    let (o, W', s') := call real retries k tok { W with log := [] } s
+    let w := s.take (window retries)
+    let (o, W', w') := call real retries k tok { W with log := [] } w
+    let used := w.length - w'.length
     let (pc, ql) := showPc W'.pc
-    let line := s!"{showOutcome o} {execs tok W'} {pc} {W'.seq} {W'.connects} {consumed s s'} {ql}"
+    let line := s!"{showOutcome o} {execs tok W'} {pc} {W'.seq} {W'.connects} {used} {ql}"
     match o with
     | .scriptEnd => (("end" :: acc)).reverse
-    | _ => runCalls retries rest W' s' (line :: acc)
+    | _ => runCalls retries rest W' (s.drop used) (line :: acc)
 
 def step : List String → String
   | ["hist", r, seq0, calls, script] =>
